@@ -7,10 +7,11 @@ import os, sys, json, re, glob, shutil
 mx = json.load(open(sys.argv[1] if len(sys.argv) > 1 else "/tmp/seed_matrix.json"))
 OUT = "/verif/seeded"
 ROUND = int(os.environ.get("ROUND", "2"))
-KEYS = {2: ("m3", "m4", "b1", "b2", "b3", "b2r"), 3: ("m5", "m6", "b4", "b5", "b6"), 4: ("m7", "m8", "b7", "b8", "b9")}[ROUND]
+KEYS = {2: ("m3", "m4", "b1", "b2", "b3", "b2r"), 3: ("m5", "m6", "b4", "b5", "b6"), 4: ("m7", "m8", "b7", "b8", "b9"), 5: ("m9", "m10", "b10", "b11")}[ROUND]
 n = 0
-for d in sorted(glob.glob("/tmp/wt-C??-out")):
-    pid = os.path.basename(d)[3:6]
+WT = os.environ.get("WTPREFIX", "/tmp/wt-")
+for d in sorted(glob.glob(WT + "C??-out")):
+    pid = os.path.basename(d)[len(os.path.basename(WT)):][:3]
     blog = os.path.join(d, "b-confirm.log")
     btxt = open(blog).read() if os.path.exists(blog) else ""
     for k in KEYS:
@@ -38,7 +39,7 @@ for d in sorted(glob.glob("/tmp/wt-C??-out")):
                 print("NOT CONFIRMED %s: %s" % (name, conf))
                 continue
         else:
-            applied = ("APPLIED %s" % k[:2]) in btxt
+            applied = ("APPLIED %s" % k) in btxt
             suite = (re.findall(r"SUITE_RC=(\d+)", btxt) or [None])[-1]
             conf = {"applied_with_the_property's_other_benign_changes": applied, "build_warnings": (re.findall(r"BUILD_WARNINGS=(\d+)", btxt) or [None])[-1],
                     "suite_exit": suite, "suite": (re.findall(r"SUITE_PASS=(\d+) FAIL=(\d*) ERROR=(\d*)", btxt) or [None])[-1]}
@@ -57,7 +58,7 @@ for d in sorted(glob.glob("/tmp/wt-C??-out")):
         out = {"id": name, "round": ROUND, "kind": "benign refactoring (behaviour-preserving)" if benign else "property-breaking change", "property": pid,
                "summary": meta.get("summary", ""), "files": meta.get("files", []), "functions": meta.get("functions", []),
                "author": "independent sub-agent given only the property text (with its anchor file names) and a scratch worktree",
-               "confirmed_by_me": dict(conf, procedure="tools/confirm_seed2.sh %s in the scratch worktree /tmp/wt-%s" % (pid, pid)),
+               "confirmed_by_me": dict(conf, procedure="tools/confirm_seed2.sh %s in the scratch worktree %s%s" % (pid, WT, pid)),
                "static_checks": {"detected_by": det, "analysis_broken_in": broken,
                                  "expected": "silent (exit 0) in every check" if benign else "any check of the property fires",
                                  "procedure": "tools/seed_matrix.py: every registered quick check on a scratch copy of /repo HEAD with the patch applied"}}
